@@ -6,3 +6,5 @@ class Plugin(HistPlugin):
     id = 'C15'
     extra_import = 'HistProps HistPropCheck'
     check_fn = 'c15_check'
+    FINDING_BITS = 0
+    UNDECIDED_BITS = 1
